@@ -54,7 +54,7 @@ warnings.filterwarnings("ignore", category=np.exceptions.ComplexWarning)
 
 PID = "C15"
 LEVEL = "exploration"
-SHARDS = {"quick": 8, "thorough": 16}
+SHARDS = {"quick": 4, "thorough": 16}  # start-up (import + numba cache load) dominates the quick tier
 RULE = (
     "Hypothesis draws (dimension 1..6, family, integer seed, verbatim spectra / squeezings); "
     "matrices are rebuilt deterministically: unitaries (Haar, permutation, diagonal phase, "
@@ -150,7 +150,8 @@ def make_unitary(d: int, fam: str, seed: int, eps: float = 0.0) -> np.ndarray:
             u = givens(d, i, i + 1, theta, phi) @ u
         return u
     if fam == "near":
-        base = ["perm", "identity", "diag", "monomial", "block"][int(rng.integers(5))]
+        # bases with entries of modulus 0 or 1 only: the new entries have modulus sin(eps) exactly
+        base = ["perm", "identity", "diag", "monomial", "antidiag"][int(rng.integers(5))]
         u = make_unitary(d, base, _sub(rng))
         if d == 1:
             return u
@@ -417,6 +418,22 @@ def takagi_region(lam, dtype_real, real_valued):
     return (not dtype_real) and real_valued and pos_rep, dtype_real and nullity >= 2
 
 
+def real_columns_in_cluster(u, s) -> bool:
+    """Is there a block of >= 2 values s_i > 0 that the code clusters (isclose, atol 1e-12)
+    whose columns of U are real?  Then A restricted to it is real positive semi-definite
+    with a repeated eigenvalue: the branch-cut region of the confirmed takagi finding."""
+    s = np.asarray(s, dtype=float)
+    order = [int(i) for i in np.argsort(s) if s[i] > 0]
+    clusters, cur = [], []
+    for i in order:  # chains of neighbours that np.isclose joins
+        if cur and not (np.isclose(s[cur[-1]], s[i], atol=1e-12) or np.isclose(s[i], s[cur[-1]], atol=1e-12)):
+            clusters.append(cur)
+            cur = []
+        cur.append(i)
+    clusters.append(cur)
+    return any(sum(1 for i in c if not np.any(u[:, i].imag)) >= 2 for c in clusters)
+
+
 def steer_out_of_regions(a, lam, info, avoid):
     """Move a real symmetric input out of the trigger regions of the two confirmed takagi
     defects *by construction* (dtype switch, else a global phase) so the remaining oracles
@@ -445,8 +462,13 @@ def make_symmetric(case, avoid=True):
         a = (a + a.T) / 2
         deg = len(set(s.tolist())) < d or bool(np.any(s == 0)) or case["ufam"] != "haar"
         info = {"degenerate": deg, "s": np.sort(s)[::-1]}
-        if case["ufam"] == "real":
-            return steer_out_of_regions(a, s, info, avoid)
+        if avoid and real_columns_in_cluster(u, s):
+            # a block of equal non-zero values whose singular vectors are real: Z = 1 there
+            info["excluded"] = BUCKET_BRANCH_CUT
+            if not np.any(a.imag) and int(np.sum(s == 0)) < 2:
+                a = a.real.astype(float)  # the real Schur form keeps the root symmetric
+            else:
+                a = a * np.exp(0.7j)  # rotate the whole matrix off the real axis
         return a, info
     if fam == "real_sym":
         o = real_orthogonal(d, case["ufam"], seed)
@@ -793,7 +815,7 @@ def make_symplectic(case, avoid=True):
     deg = structured or len(set(np.abs(r).tolist())) < d or bool(np.any(r == 0))
     excluded = None
     if avoid and (fam in ("real_sym", "pure_squeeze")
-                  or (fam == "single" and not np.any(u2.imag))):
+                  or (fam == "single" and real_columns_in_cluster(u2, -r))):
         # euler() hands Z = -U2 diag(r) U2^T (+ round-off of polar/logm) to takagi: real,
         # positive semi-definite with a repeated eigenvalue when U2 is real-valued and two
         # negative r coincide -> the confirmed branch-cut region; flip the sign by
@@ -1085,23 +1107,26 @@ def parts(tier):
     return ps
 
 
+BUDGET = {"quick": 300, "thorough": 3000}  # upper bound only; a quick run needs ~10 s per part
+
+
 def _parts(tier):
     return [
         Part("clements", prop_clements, strategy=unitary_cases(),
-             examples={"quick": 900, "thorough": 30000}),
+             examples={"quick": 900, "thorough": 30000}, budget_s=BUDGET),
         Part("takagi", prop_takagi, strategy=symmetric_cases(),
-             examples={"quick": 800, "thorough": 30000}),
+             examples={"quick": 800, "thorough": 30000}, budget_s=BUDGET),
         Part("williamson", prop_williamson, strategy=williamson_cases(),
-             examples={"quick": 500, "thorough": 15000}),
+             examples={"quick": 500, "thorough": 15000}, budget_s=BUDGET),
         Part("euler", prop_euler, strategy=symplectic_cases(),
-             examples={"quick": 500, "thorough": 15000}),
+             examples={"quick": 500, "thorough": 15000}, budget_s=BUDGET),
         Part("graph", prop_graph, strategy=graph_cases(),
-             examples={"quick": 300, "thorough": 10000}),
+             examples={"quick": 300, "thorough": 10000}, budget_s=BUDGET),
         # trigger regions of confirmed findings, kept out of the parts above by construction
         Part("trigger_takagi", prop_takagi_trigger, strategy=takagi_trigger_cases(),
-             examples={"quick": 64, "thorough": 2000}),
+             examples={"quick": 64, "thorough": 2000}, budget_s=BUDGET),
         Part("trigger_euler", prop_euler_trigger, strategy=euler_trigger_cases(),
-             examples={"quick": 32, "thorough": 1000}),
+             examples={"quick": 32, "thorough": 1000}, budget_s=BUDGET),
         Part("trigger_clements", prop_clements, strategy=clements_trigger_cases(),
-             examples={"quick": 32, "thorough": 1000}),
+             examples={"quick": 32, "thorough": 1000}, budget_s=BUDGET),
     ]
